@@ -876,9 +876,14 @@ class Compound(Event, abc.ABC, list[T], typing.Generic[T]):
         >>> piano_voice_1
         Consecution([])
         """
+        # The new event gets its own copies of the (mutable) side attributes,
+        # otherwise editing its tempo would edit the tempo of 'self'.
         return type(self)(
             [],
-            **{a: getattr(self, a) for a in self._class_specific_side_attribute_tuple},
+            **{
+                a: v if callable(v := getattr(self, a)) else copy.deepcopy(v)
+                for a in self._class_specific_side_attribute_tuple
+            },
         )
 
     def get_event_from_index_sequence(
